@@ -307,7 +307,11 @@ def finish(pid, mod, tier, seed, results, t0, th, mir_s, tasks):
     for key, vs in sorted(classes.items(), key=lambda kv: str(kv[0])):
         tried = 0
         hit = None
-        for v in vs[:6]:
+        order = list(vs)
+        random.Random(seed).shuffle(order)
+        if hasattr(mod, 'replay_priority'):
+            order.sort(key=mod.replay_priority)
+        for v in order[:10]:
             tried += 1
             try:
                 rr = mod.replay(v, native)
